@@ -638,6 +638,13 @@ def ResolveBinaryExpressionType(
             resultType = left.WithComponentType(baseType)
             return ExpressionType(resultType, [resultType, baseType])
 
+        # Neither side is scalar: the left side must be a matrix, there is no
+        # vector * vector or vector * matrix product
+        if not left.IsMatrix():
+            Errors.ERROR_INVALID_BINARY_EXPRESSION_OPERATION.Raise(
+                operation, left, right
+            )
+
         leftShape = _GetRowsColumns(left)
         rightShape = _GetRowsColumns(right)
 
